@@ -1,6 +1,6 @@
 //verif:package github.com/kstenerud/go-concise-encoding/internal/verifh/c02
 //verif:config cap=300 steps=400000000 paths=20000 timeout=120000 maxsec=1800
-//verif:bounds whole-document CTE round trips through the real CTE encoder and the real CTE decoder (ANTLR lexer, parser and listener executed by the engine) behind the real rules validator: integers 0..255 (quick: 29 boundary values, positive at top level, negative as a map key; thorough: all values, both signs, 4 positions); strings of one symbolic character from a 24-character set (letters, digit, space, the characters that need escaping, a 2-byte and a 3-byte code point) whole and as map key; typed arrays uint8/int16 with one symbolic element (quick: the digit-count and sign boundaries); 11 structural templates with an 8-bit payload (quick: 12 boundary values) (nested containers, comments, markers and references, record types and records, nodes, edges, media, custom binary, UID, NaN, booleans, null, decimal and binary floats, dates, times and timestamps with UTC, UTC-offset and lat/long zones (area/location zones load the host's zone database and are not generated))
+//verif:bounds whole-document CTE round trips through the real CTE encoder and the real CTE decoder (ANTLR lexer, parser and listener executed by the engine) behind the real rules validator: integers 0..255 (quick: 29 boundary values, positive at top level, negative as a map key; thorough: all values, both signs, 2 positions); strings of one symbolic character from a 24-character set (letters, digit, space, the characters that need escaping, a 2-byte and a 3-byte code point) whole and as map key; typed arrays uint8/int16 with one symbolic element (quick: the digit-count and sign boundaries); 11 structural templates with an 8-bit payload (quick: 12 boundary values, thorough: 72) (nested containers, comments, markers and references, record types and records, nodes, edges, media, custom binary, UID, NaN, booleans, null, decimal and binary floats, dates, times and timestamps with UTC, UTC-offset and lat/long zones (area/location zones load the host's zone database and are not generated))
 //verif:assume every symbolic character reaches the lexer's table lookups, where the engine enumerates its feasible values with the solver (one path per value): the bounds are small on purpose; equality of streams as in C01 (integers by value, arrays joined, comments keep their text, padding disappears)
 package c02
 
@@ -149,7 +149,7 @@ func Verif_C02_Integers() {
 	var pos int
 	if verifrt.Thorough() {
 		neg = verifrt.Choice("negative", 2) == 1
-		pos = verifrt.Choice("pos", 4)
+		pos = verifrt.Choice("pos", 2) * 2 // top level, map key
 	} else {
 		if verifrt.Choice("form", 2) == 1 { // quick: positive at top level, negative as a map key
 			neg, pos = true, 2
@@ -216,6 +216,8 @@ func Verif_C02_Structures() {
 	v := uint64(verifrt.U8("v"))
 	if !verifrt.Thorough() {
 		verifrt.Assume(v < 4 || v >= 252 || v == 9 || v == 10 || v == 99 || v == 100) // quick: boundaries
+	} else {
+		verifrt.Assume(v < 24 || (v >= 96 && v < 136) || v >= 248) // thorough: 72 values around every digit-count and sign boundary
 	}
 	timeVariant := 0
 	if which == 8 {
